@@ -150,6 +150,7 @@ func genC02(d *Draw) Case {
 		// a slow subscriber: back-pressure through the tracer holds flows in their first Send
 		c.ExtraObs = 1
 		c.SlowObsMs = 1 + d.N(3)
+		c.SlowAll = true
 	}
 	var tl []string
 	for t := range tags {
